@@ -50,6 +50,7 @@ where
         let msg = format!("{:#}", e);
         return SessionOutcome::InitFailed(format!("{} :: {}", err_kind(&e), msg.chars().take(300).collect::<String>()));
     }
+    let quarantined_before = quarantined_set(&world);
     world.reconcile_dir(CORRUPTED);
     *ctx.active_known.borrow_mut() = Some(storage.has_active_blob().await);
     ctx.ignored.borrow_mut().clear();
@@ -57,6 +58,9 @@ where
         crate::crash::after_recovery::<K>(&ctx, &storage, si).await;
     } else {
         observe_ignored::<K>(&ctx, &storage, sess.ignore_corrupted.unwrap_or(plan.store.ignore_corrupted)).await;
+        if si > 0 && plan.sessions[si - 1].end == SessionEnd::Close && base_phase(&plan, si) == Some("crash") {
+            rejected_after_recovery(&ctx, si, &quarantined_before);
+        }
     }
     crate::oracle::after_init(&ctx, &storage, si).await;
 
@@ -84,6 +88,7 @@ where
         if crate::oracle::settle(&ctx).await {
             *ctx.last_step_note.borrow_mut() = format!("at quiescence after the concurrent session {}", si);
             check_all_queries::<K>(&ctx, &shared, "quiescent", 2_000_000 + si as u32).await;
+            crate::oracle::check_accounting(&ctx, &shared, "quiescent").await;
             // a restore makes a closed blob (whose deletion markers are outside the dirty accounting, a
             // recorded finding that cannot be told apart here) the active blob: only sessions without a
             // successful restore are judged
@@ -540,6 +545,9 @@ where
             }
         }
     }
+    if base_phase(&plan, si) == Some("crash") {
+        rejected_after_recovery(ctx, si, &quarantined_before);
+    }
     *ctx.active_known.borrow_mut() = Some(s2.has_active_blob().await);
     *ctx.last_step_note.borrow_mut() = format!("after Restart(lazy={}, damage={:?}) uid={}", lazy, damage, uid);
     crate::oracle::after_init(ctx, &s2, si).await;
@@ -560,6 +568,33 @@ where
         }
     }
     Ok(s2)
+}
+
+fn quarantined_set(world: &Rc<World>) -> BTreeSet<usize> {
+    world.inner.borrow().shadows.iter().filter(|(_, s)| s.quarantined).filter_map(|(n, _)| if let FileKind::Blob(id) = classify(n) { Some(id) } else { None }).collect()
+}
+
+/// C06, sessions after the recovery: a blob that recovery accepted (it was part of the storage
+/// when the last clean close began) must still be accepted by the next start. A process kill
+/// leaves nothing that could be discovered late (a torn tail is seen by the first scan, an index
+/// is trusted only for the exact blob length); after a power loss garbage inside the blob's length
+/// can surface later (validation of data switched on, index removed), so the victims of a power
+/// loss are exempt.
+fn rejected_after_recovery(ctx: &Rc<RunCtx>, si: usize, quarantined_before: &BTreeSet<usize>) {
+    let plan = ctx.plan.clone();
+    let world = ctx.world.clone();
+    let power_loss = plan.sessions.iter().take(si + 1).any(|s| matches!(s.end, SessionEnd::PowerLoss(_)));
+    let newly: BTreeSet<usize> = quarantined_set(&world).difference(quarantined_before).copied().collect();
+    let ignored = ctx.ignored.borrow().clone();
+    let served = ctx.served_at_close.borrow().clone();
+    let victims = ctx.crash_victims.borrow().clone();
+    for b in newly.iter().chain(ignored.iter()) {
+        if !served.contains(b) || (power_loss && victims.contains(b)) {
+            continue;
+        }
+        world.probe("blob_rejected_after_recovery");
+        ctx.violate(&["C06"], "blob-rejected-after-recovery", "a blob that was part of the storage after recovery was rejected by a later start after a clean close", format!("session {} blob {} victims={:?}", si, b, victims));
+    }
 }
 
 fn restart_phase(plan: &Plan, si: usize) -> &'static str {
@@ -920,6 +955,29 @@ where
                     if matches!(op.kind, OpKind::TryClose) && fault_free && stepwise && precondition_known {
                         if let Some(a) = active_before {
                             crate::oracle::check_blob_clean(ctx, a, "unsynced-after-close", "blob bytes remain un-synced after a successful close of the active blob");
+                        }
+                    }
+                    if matches!(op.kind, OpKind::TryClose) && fault_free {
+                        // concurrent clients included: the blob this call synced is the blob it closed;
+                        // no record of a write may lie above its synced length when the call returns
+                        // (markers that deletes append to closed blobs are the recorded dirty-bound finding)
+                        let closed = world.inner.borrow().blob_sync_by_op.get(&(client, op.uid)).copied();
+                        let active_now = observed_active(storage).await;
+                        if let Some(b) = closed {
+                            if active_now != Some(b) {
+                                world.probe("closed_blob_checked_for_unsynced_records");
+                                let d = {
+                                    let w = world.inner.borrow();
+                                    let name = format!("{}.{}.blob", PREFIX, b);
+                                    match w.shadows.get(&name) {
+                                        Some(sh) if !sh.quarantined && !sh.removed => w.phys.get(&b).and_then(|v| v.iter().find(|r| !r.deleted && r.offset + r.total_len > sh.synced_len)).map(|r| format!("{} synced {} of {}; record of a write at offset {} len {}", name, sh.synced_len, sh.content.len(), r.offset, r.total_len)),
+                                        _ => None,
+                                    }
+                                };
+                                if let Some(d) = d {
+                                    ctx.violate(&["C12"], "unsynced-after-close", "a record written to the blob lies above its synced length when try_close_active_blob returns Ok", d);
+                                }
+                            }
                         }
                     }
                     *ctx.active_known.borrow_mut() = Some(!matches!(op.kind, OpKind::TryClose));
